@@ -293,6 +293,11 @@ func run(tier string, shard, nsh int, res *ev.Result) {
 		panic(err)
 	}
 	thorough := tier == "thorough"
+	if shard == 0 {
+		nc := historyProbe(res) // first thing in the process
+		res.Add("history_probe_calls", nc)
+		res.Add("evaluations", nc)
+	}
 	tableSelfCheck(res)
 	var jobs []func(lc *local)
 	add := func(f func(lc *local)) { jobs = append(jobs, f) }
@@ -478,6 +483,12 @@ func run(tier string, shard, nsh int, res *ev.Result) {
 }
 
 func replay(check string, raw json.RawMessage, res *ev.Result) {
+	if check == "history" {
+		var c HistCase
+		json.Unmarshal(raw, &c)
+		replayHistory(c, res)
+		return
+	}
 	var c Case
 	json.Unmarshal(raw, &c)
 	p := lib.ByName(c.Entry)
